@@ -9,22 +9,28 @@ LEVEL = "exploration"
 ENGINE = "E0 pure"
 TECHNIQUE = ("model-based testing: Hypothesis-generated histories on the real OverwriteableFileConsumer (download chunks of generated sizes interleaved with client "
              "overwrites at state-relative offsets -- ahead of, behind and across the download position, nested in and overlapping earlier overwrites, past EOF --, "
-             "truncations/extensions and reads) against a bytearray model; reads are compared when they complete, the whole file when the download has finished")
+             "truncations/extensions and reads) against a bytearray model; reads are compared when they complete, the whole file when the download has finished.  Second family: the same kind of "
+             "history through the SFTP file handle (GeneralSFTPFile.open/readChunk/writeChunk/setAttrs(size)/getAttrs/close with generated open flags, mutable or immutable "
+             "file node whose download the generator feeds chunk by chunk, several requests outstanding); the upload performed by close() is captured and compared")
 RULE = ("each case: an original file of 0-200 bytes and up to 20 operations: deliver(n bytes of the original), overwrite(offset, data) with offset drawn relative to the "
         "download position / the current size / the start or end of an earlier overwrite, set_size(smaller|larger), read(offset, length), finish. While a read is pending only "
         "download chunks are delivered (the class documents that callers serialise overwrites behind reads). Model: bytearray with writes and size changes applied in order, "
         "zero fill for gaps. Oracle: every completed read equals the model slice taken when the read was issued (EOFError at/after EOF); after the download has delivered "
         "everything, the whole temporary file (what close() uploads: read to EOF, so its length counts) equals the model. Non-trivial = an overwrite that starts ahead of the download position and overlaps or "
-        "nests inside an earlier pending overwrite; distinct by whole case.")
+        "nests inside an earlier pending overwrite; distinct by whole case.  Handle family: flags in {rw, w, rw+append, rw+trunc, rw+creat}, up to 20 requests, close before or after "
+        "the download finished; oracle: every readChunk that was not overtaken by a later write/size change/close while still waiting equals the model at the time it was "
+        "requested (FX_EOF at/after EOF), getAttrs reports the model size, every request completes, and what close() hands to the uploader (parent.add_file or "
+        "filenode.overwrite, read to EOF) equals the model whenever a write or size change was requested (otherwise nothing or the same contents).")
 LEVEL_TEXT = "Random histories against a byte-array model, with offsets generated relative to the state that matters (download position, pending overwrites)."
-ASSUMPTIONS = ["the temporary file is the real EncryptedTemporaryFile (key from the seeded urandom); what close() would upload is the whole file read to EOF", "reads, writes and size changes are serialised by the caller, as GeneralSFTPFile's request queue does"]
-REQUIRED_CLASSES = ["overwrite-ahead", "overwrite-nested-in-pending", "overwrite-overlaps-pending", "overwrite-behind", "overwrite-past-eof", "truncate", "extend", "read-waits-for-download", "read-eof"]
+ASSUMPTIONS = ["the temporary file is the real EncryptedTemporaryFile (key from the seeded urandom); what close() would upload is the whole file read to EOF", "consumer family: no overwrite or size change is issued while a read is waiting (OverwriteableFileConsumer.read documents this as the caller's obligation); several reads may wait at once",
+               "handle family: a readChunk that is still waiting for the download when a later writeChunk/setAttrs/close is requested is not asserted (GeneralSFTPFile does not hold later requests back until the read has been answered; the statement orders client operations and does not speak about overlapping ones)"]
+REQUIRED_CLASSES = ["uploaded", "size-changed", "close-waits-for-download", "two-reads-outstanding", "mutable-node", "immutable-node", "overwrite-ahead", "overwrite-nested-in-pending", "overwrite-overlaps-pending", "overwrite-behind", "overwrite-past-eof", "truncate", "extend", "read-waits-for-download", "read-eof"]
 BUDGET = {"quick": 600, "thorough": 3600}
 
 
 def plan(tier):
     n = 800 if tier == "quick" else 12000
-    return [{"kind": "hyp", "n": n} for _ in range(16)]
+    return [{"kind": "hyp", "n": n} for _ in range(10)] + [{"kind": "handle", "n": n // 2} for _ in range(6)]
 
 
 pos = st.one_of(st.tuples(st.just("dl"), st.integers(-3, 12)), st.tuples(st.just("size"), st.integers(-5, 4)), st.tuples(st.just("ow-start"), st.integers(0, 3), st.integers(-2, 3)),
@@ -45,11 +51,280 @@ def cases(draw):
     return {"size": draw(st.sampled_from([0, 1, 10, 50, 100, 200]) | st.integers(0, 200)), "ops": draw(st.lists(op, max_size=20))}
 
 
+hop = st.one_of(
+    st.tuples(st.just("deliver"), st.integers(1, 40)),
+    st.tuples(st.just("deliver"), st.integers(1, 8)),
+    st.tuples(st.just("write"), pos, st.integers(1, 30), st.integers(0, 9)),
+    st.tuples(st.just("write"), pos, st.integers(1, 6), st.integers(0, 9)),
+    st.tuples(st.just("set_size"), pos),
+    st.tuples(st.just("read"), pos, st.integers(1, 40)),
+    st.tuples(st.just("getattrs")),
+).map(list)
+
+
+@st.composite
+def handle_cases(draw):
+    return {"fam": "handle", "size": draw(st.sampled_from([0, 1, 10, 50, 100, 200]) | st.integers(0, 200)), "mutable": draw(st.booleans()),
+            "flags": draw(st.sampled_from(["rw", "rw", "rw", "w", "rw-append", "rw-trunc", "rw-creat"])),
+            "ops": draw(st.lists(hop, max_size=20)), "close_at": draw(st.sampled_from(["after-download", "before-download-finished"]))}
+
+
 def run_shard(spec, ctx):
-    ctx.drive(cases(), spec["n"], run_case)
+    if spec["kind"] == "handle":
+        ctx.drive(handle_cases(), spec["n"], run_case)
+    else:
+        ctx.drive(cases(), spec["n"], run_case)
+
+
+def run_handle_case(case, ctx):
+    """The same histories through the SFTP file handle (GeneralSFTPFile: open / readChunk / writeChunk / setAttrs(size) / getAttrs / close) on
+    top of a fake file node whose download the generator feeds chunk by chunk; the upload that close() performs is captured."""
+    from zope.interface import implementer
+    from twisted.internet import defer
+    from twisted.python.failure import Failure
+    from twisted.conch.ssh.filetransfer import FXF_READ, FXF_WRITE, FXF_APPEND, FXF_TRUNC, FXF_CREAT, SFTPError, FX_EOF
+    from allmydata.interfaces import IFileNode
+    from allmydata.frontends.sftpd import GeneralSFTPFile
+    original = pbytes(1, case["size"])
+    uploaded = []
+
+    def slurp(u):
+        out = []
+        d = defer.maybeDeferred(u.get_size)
+
+        def _sz(n):
+            d2 = defer.maybeDeferred(u.read, n + 10)
+            d2.addCallback(lambda chunks: out.append(b"".join(chunks)))
+            return d2
+        d.addCallback(_sz)
+        d.addCallback(lambda ign: uploaded.append(out[0]))
+        return d
+
+    @implementer(IFileNode)
+    class Node:
+        consumer = None
+
+        def is_mutable(self):
+            return case["mutable"]
+
+        def is_readonly(self):
+            return False
+
+        def is_unknown(self):
+            return False
+
+        def get_write_uri(self):
+            return b"URI:fake-write-cap"
+
+        def get_size(self):
+            return len(original)
+
+        def get_best_readable_version(self):
+            return defer.succeed(self)
+
+        def read(self, consumer, offset=0, size=None):
+            self.consumer = consumer
+            self.d = defer.Deferred()
+            return self.d
+
+        def overwrite(self, uploadable):
+            return slurp(uploadable)
+
+    class Parent:
+        def get_write_uri(self):
+            return b"URI:DIR2:fake-parent"
+
+        def add_file(self, name, uploadable, metadata=None):
+            return slurp(uploadable)
+
+        def set_metadata_for(self, name, md):
+            return defer.succeed(None)
+    node = Node()
+    flags = {"rw": FXF_READ | FXF_WRITE, "w": FXF_WRITE, "rw-append": FXF_READ | FXF_WRITE | FXF_APPEND, "rw-trunc": FXF_READ | FXF_WRITE | FXF_TRUNC,
+             "rw-creat": FXF_READ | FXF_WRITE | FXF_CREAT}[case["flags"]]
+    h = GeneralSFTPFile(b"/user/path", flags, None, b"convergence-secret")
+    h.open(parent=Parent(), childname=u"child", filenode=node, metadata={"mtime": 1})
+    boot.drain()
+    trunc = bool(flags & FXF_TRUNC)
+    model = bytearray(b"" if trunc else original)
+    changed = bool(flags & (FXF_TRUNC | FXF_CREAT))       # "creating or truncating the file is a change"
+    delivered = 0
+    done_dl = [trunc]
+    classes = set(["flags-" + case["flags"], "mutable-node" if case["mutable"] else "immutable-node"])
+    hist = [("open", case["flags"], "mutable" if case["mutable"] else "immutable", len(original))]
+    reads = []
+    nt = False
+    pending_ow = []
+
+    def dlpos():
+        return len(original) if trunc else delivered
+
+    def resolve(p):
+        if p[0] == "dl":
+            v = dlpos() + p[1]
+        elif p[0] == "size":
+            v = len(model) + p[1]
+        elif p[0] in ("ow-start", "ow-end"):
+            if not pending_ow:
+                v = dlpos() + 5
+            else:
+                s_, e_ = pending_ow[p[1] % len(pending_ow)]
+                v = (s_ if p[0] == "ow-start" else e_) + p[2]
+        else:
+            v = p[1]
+        return max(0, min(v, 260))
+
+    def deliver(n):
+        nonlocal delivered
+        if trunc or node.consumer is None:
+            return
+        if delivered < len(original):
+            chunk = original[delivered:delivered + n]
+            delivered += len(chunk)
+            node.consumer.write(chunk)
+            hist.append(("deliver", len(chunk)))
+        if delivered >= len(original) and not done_dl[0]:
+            done_dl[0] = True
+            node.d.callback(None)
+        boot.drain()
+
+    def desc():
+        return "original=%d bytes history=%r" % (len(original), hist)
+
+    def overtake():
+        # A write or size change requested while a read is still waiting for the download: OverwriteableFileConsumer.read documents
+        # "the caller must perform no more overwrites until the Deferred has fired", and the handle does not wait.  What such a read
+        # returns is not asserted (the statement orders client operations; it does not speak about overlapping ones); everything
+        # else, in particular what close() uploads, still is.
+        for r in reads:
+            if not r[3] and not r[4]:
+                r[4] = True
+                classes.add("mutation-while-read-pending(read-not-asserted)")
+
+    def check_reads():
+        for r in reads:
+            if r[3] and not r[4]:
+                r[4] = True
+                res = r[3][0]
+                if r[2] == "eof":
+                    ctx.check(isinstance(res, Failure) and res.check(SFTPError) and res.value.code == FX_EOF, "read-past-eof", "%s: readChunk(%d,%d) at/after EOF returned %r" % (desc(), r[0], r[1], res))
+                elif isinstance(res, Failure):
+                    ctx.fail("read-failed", "%s: readChunk(%d,%d) failed: %r" % (desc(), r[0], r[1], res.value))
+                elif res != r[2]:
+                    first = next((i for i in range(min(len(res), len(r[2]))) if res[i] != r[2][i]), min(len(res), len(r[2])))
+                    ctx.fail("read-differs", "%s: readChunk(offset=%d, length=%d) returned %d bytes; byte %d differs from the contents after the requests issued before it" % (desc(), r[0], r[1], len(res), r[0] + first))
+    for o in case["ops"]:
+        kind = o[0]
+        if kind == "deliver":
+            deliver(o[1])
+        elif kind == "write":
+            off = resolve(o[1])
+            data = pbytes(100 + o[3], o[2])
+            if flags & FXF_APPEND:
+                off = len(model)
+            hist.append(("writeChunk", off, len(data)))
+            end = off + len(data)
+            if off >= dlpos():
+                classes.add("overwrite-ahead")
+                for (s_, e_) in pending_ow:
+                    if off < e_ and s_ < end:
+                        classes.add("overwrite-overlaps-pending")
+                        nt = True
+            overtake()
+            res = []
+            h.writeChunk(o[1][1] if (flags & FXF_APPEND) else off, data).addBoth(res.append)
+            changed = True
+            if off > len(model):
+                model.extend(b"\0" * (off - len(model)))
+            model[off:end] = data
+            if end > dlpos():
+                pending_ow.append((off, end))
+            boot.drain()
+            ctx.check(res and not isinstance(res[0], Failure), "write-failed", "%s: writeChunk failed or did not return at once: %r" % (desc(), res))
+        elif kind == "set_size":
+            size = resolve(o[1])
+            hist.append(("setAttrs-size", size))
+            classes.add("truncate" if size < len(model) else "extend")
+            if size != len(model):
+                size_changed = True
+                classes.add("size-changed")
+            overtake()
+            res = []
+            h.setAttrs({"size": size}).addBoth(res.append)
+            if size < len(model):
+                del model[size:]
+                pending_ow[:] = [(s_, min(e_, size)) for (s_, e_) in pending_ow if s_ < size]
+            else:
+                model.extend(b"\0" * (size - len(model)))
+            boot.drain()
+        elif kind == "read":
+            if not (flags & FXF_READ):
+                continue
+            off = resolve(o[1])
+            hist.append(("readChunk", off, o[2]))
+            res = []
+            h.readChunk(off, o[2]).addBoth(res.append)
+            exp = "eof" if off >= len(model) else bytes(model[off:off + o[2]])
+            if exp == "eof":
+                classes.add("read-eof")
+            reads.append([off, o[2], exp, res, False])
+            boot.drain()
+            if not res:
+                classes.add("read-waits-for-download")
+                if any(w[0] in ("writeChunk", "setAttrs-size") for w in hist):
+                    nt = True
+        elif kind == "getattrs":
+            res = []
+            h.getAttrs().addBoth(res.append)
+            boot.drain()
+            if res and not isinstance(res[0], Failure) and not any(not r[3] for r in reads):
+                ctx.check(res[0].get("size") == len(model), "size-differs", "%s: getAttrs reports size %r, model %d" % (desc(), res[0].get("size"), len(model)))
+        pending_ow[:] = [(s_, e_) for (s_, e_) in pending_ow if e_ > dlpos()]
+        boot.drain()
+        check_reads()
+    size_was_changed = "size-changed" in classes
+    if case["close_at"] == "after-download":
+        while not done_dl[0] and node.consumer is not None:
+            deliver(16)
+    hist.append(("close",))
+    overtake()          # a close requested while a read is outstanding: the read's answer is not asserted either
+    cres = []
+    h.close().addBoth(cres.append)
+    boot.drain()
+    if not cres:
+        classes.add("close-waits-for-download")
+    guard = 0
+    while not done_dl[0] and node.consumer is not None and guard < 100:
+        deliver(16)
+        guard += 1
+    boot.drain()
+    check_reads()
+    for r in reads:
+        if not r[3]:
+            ctx.fail("read-never-completed", "%s: readChunk(%d,%d) never completed although the download finished and the handle was closed" % (desc(), r[0], r[1]))
+    if not cres:
+        ctx.fail("close-never-completed", "%s: close() never completed" % desc())
+    elif isinstance(cres[0], Failure):
+        ctx.fail("close-failed", "%s: close() failed: %r" % (desc(), cres[0].value))
+    elif changed or size_was_changed:
+        if not uploaded:
+            ctx.fail("not-uploaded", "%s: the handle was closed after %s but nothing was uploaded: the stored file keeps its old contents (%d bytes, the client's view had %d)" % (
+                desc(), "writes" if changed else "a size change only", len(original), len(model)), only_size_change=not changed)
+        else:
+            final = uploaded[-1]
+            classes.add("uploaded")
+            if final != bytes(model):
+                first = next((i for i in range(min(len(final), len(model))) if final[i] != model[i]), min(len(final), len(model)))
+                ctx.fail("uploaded-contents-differ", "%s: close() uploaded %d bytes, the model has %d; first difference at offset %d" % (desc(), len(final), len(model), first))
+    else:
+        classes.add("unchanged-no-upload")
+        ctx.check(not uploaded or uploaded[-1] == bytes(model), "uploaded-contents-differ", "%s: an unchanged file was uploaded with different contents" % desc())
+    ctx.note(sig=repr(case), nontrivial=nt, classes=sorted(classes), sample={"size": case["size"], "history": hist[:14]})
 
 
 def run_case(case, ctx):
+    if case.get("fam") == "handle":
+        return run_handle_case(case, ctx)
     from allmydata.frontends.sftpd import OverwriteableFileConsumer
     original = pbytes(1, case["size"])
     from allmydata.util.fileutil import EncryptedTemporaryFile
@@ -104,7 +379,7 @@ def run_case(case, ctx):
     for o in case["ops"]:
         waiting = any(not r[3] for r in reads)
         kind = o[0]
-        if waiting and kind != "deliver":
+        if waiting and kind not in ("deliver", "read"):
             kind = "deliver"
             o = ["deliver", 7]
         if kind == "deliver":
@@ -161,6 +436,8 @@ def run_case(case, ctx):
             boot.drain()
             if not res:
                 classes.add("read-waits-for-download")
+                if waiting:
+                    classes.add("two-reads-outstanding")
         pending_ow[:] = [(s, e) for (s, e) in pending_ow if e > c.downloaded]
         boot.drain()
         check_reads()
